@@ -26,6 +26,7 @@ func init() {
 			{"C13-R4", "a delete that may leave a shard set empty reaches the unlink decision", c13r4},
 			{"C13-R5", "foreign-cluster shards are merged only after the cluster-local and node-local tests", c13r5},
 			{"C13-R6", "the endpoint diff key is injective on the wire identity of a member", c13r6},
+			{"C13-R7", "a cluster named in the update is not declared unaffected by the host's current resolution", c13r7},
 		},
 	})
 }
@@ -543,4 +544,139 @@ func c13r6(c *Ctx) {
 		}
 	}
 	c.Floor(3)
+}
+
+// C13-R7: a cluster named in the update is never declared unaffected because of what its host resolves to NOW. A partial
+// EDS push rebuilds the clusters whose host name is among the updated services (affectedService: a match on the host
+// name alone). The host of an update names the service that CHANGED - possibly one that was just deleted or un-exported -
+// while ServiceForHostname answers with the service the proxy resolves the host to after the change: when a namesake in
+// another namespace takes over, the two differ, and a test that compares them skips exactly the cluster whose content
+// changed (the proxy keeps the deleted service's endpoints). The proxy's previous resolution is not available to
+// buildEndpoints, so no narrowing by the current one can be right. Decided in EdsGenerator.buildEndpoints: where the
+// result of affectedService is merged with a constant (a phi that can turn `true` into `false`), no condition that
+// selects among the phi's edges derives from the result of ServiceForHostname.
+func c13r7(c *Ctx) {
+	p := c.P
+	fn := p.Func(pkgXds, "EdsGenerator", "buildEndpoints")
+	var aff, svc []ssa.Value
+	eachInstr(fn, func(ins ssa.Instruction) {
+		call, ok := ins.(*ssa.Call)
+		if !ok {
+			return
+		}
+		if o := calleeObj(call); o != nil {
+			switch o.Name() {
+			case "affectedService":
+				aff = append(aff, call)
+			case "ServiceForHostname":
+				svc = append(svc, call)
+			}
+		}
+	})
+	c.Check("buildEndpoints: affectedService and ServiceForHostname calls found", fn.Pos(), len(aff) >= 1 && len(svc) >= 1, fmt.Sprintf("%d affectedService calls, %d ServiceForHostname calls", len(aff), len(svc)))
+	isSvc := func(v ssa.Value) bool {
+		for _, s := range svc {
+			if v == s {
+				return true
+			}
+		}
+		return false
+	}
+	derivesSvc := func(v ssa.Value) bool {
+		seen := map[ssa.Value]bool{}
+		var walk func(v ssa.Value, d int) bool
+		walk = func(v ssa.Value, d int) bool {
+			if v == nil || seen[v] || d > 10 {
+				return false
+			}
+			seen[v] = true
+			if isSvc(v) {
+				return true
+			}
+			switch x := v.(type) {
+			case *ssa.UnOp:
+				return walk(x.X, d+1)
+			case *ssa.FieldAddr:
+				return walk(x.X, d+1)
+			case *ssa.Field:
+				return walk(x.X, d+1)
+			case *ssa.BinOp:
+				return walk(x.X, d+1) || walk(x.Y, d+1)
+			case *ssa.Convert:
+				return walk(x.X, d+1)
+			case *ssa.ChangeType:
+				return walk(x.X, d+1)
+			case *ssa.Phi:
+				for _, e := range x.Edges {
+					if walk(e, d+1) {
+						return true
+					}
+				}
+			case *ssa.Call:
+				for _, a := range x.Call.Args {
+					if walk(a, d+1) {
+						return true
+					}
+				}
+			case *ssa.Alloc:
+				if x.Referrers() != nil {
+					for _, r := range *x.Referrers() {
+						if st, ok := r.(*ssa.Store); ok && st.Addr == ssa.Value(x) && walk(st.Val, d+1) {
+							return true
+						}
+					}
+				}
+			}
+			return false
+		}
+		return walk(v, 0)
+	}
+	bad := false
+	for _, a := range aff {
+		// phis that merge the result with something else
+		work := []ssa.Value{a}
+		seen := map[ssa.Value]bool{a: true}
+		for len(work) > 0 {
+			v := work[len(work)-1]
+			work = work[:len(work)-1]
+			if v.Referrers() == nil {
+				continue
+			}
+			for _, r := range *v.Referrers() {
+				ph, ok := r.(*ssa.Phi)
+				if !ok || seen[ph] {
+					continue
+				}
+				seen[ph] = true
+				work = append(work, ph)
+				narrows := false
+				for _, e := range ph.Edges {
+					if k, isC := constBool(e); isC && !k {
+						narrows = true
+					}
+				}
+				if !narrows {
+					continue
+				}
+				// conditions that select among the edges: the Ifs between the definition and the phi
+				for _, pr := range ph.Block().Preds {
+					for b := pr; b != nil && b != a.(*ssa.Call).Block().Idom(); b = b.Idom() {
+						iff := ifOf(b)
+						if iff == nil || !a.(*ssa.Call).Block().Dominates(b) {
+							continue
+						}
+						if derivesSvc(iff.Cond) {
+							bad = true
+							c.Check("a cluster named in the update is not declared unaffected by the host's current resolution", iff.Pos(), false,
+								"the result of affectedService - the cluster's host name is among the updated services - is turned into `false` under a condition that depends on the service ServiceForHostname resolves the host to now: when the updated (deleted, un-exported) service was the one the proxy had been using and a namesake in another namespace takes over, the cluster name is unchanged, the test fails and the cluster is skipped - the proxy keeps the deleted service's endpoints and never receives the new service's")
+						}
+					}
+				}
+			}
+		}
+	}
+	if !bad {
+		c.Check("a cluster named in the update is not declared unaffected by the host's current resolution", fn.Pos(), true, "")
+	}
+	c.Floor(2)
 }
